@@ -32,9 +32,15 @@ class AbstractConstraint(object):
             self._testValue(value, idx)
 
         except error.ValueConstraintError:
-            raise error.ValueConstraintError(
-                '%s failed at: %r' % (self, sys.exc_info()[1])
-            )
+            try:
+                message = '%s failed at: %r' % (self, sys.exc_info()[1])
+
+            except ValueError:
+                # the offending value can't be printed (the interpreter
+                # refuses to render integers beyond a certain size)
+                message = '%s failed' % (self,)
+
+            raise error.ValueConstraintError(message)
 
     def __repr__(self):
         representation = '%s object' % (self.__class__.__name__)
